@@ -1,7 +1,7 @@
 #!/bin/bash
 # tools/import_seed.sh <worktree> <a|b> <Cxx> "<needs>" : copy a CONFIRMED seed into /verif/seeded/<Cxx>-<x>/
 set -eu
-wt="$1"; x="$2"; prop="$3"; needs="$4"; sd="$wt/SEED/$x"; dst="/verif/seeded/$prop-$x"
+wt="$1"; x="$2"; prop="$3"; needs="$4"; sfx="${5:-$x}"; sd="$wt/SEED/$x"; dst="/verif/seeded/$prop-$sfx"
 mkdir -p "$dst"
 cp "$sd/patch.rebased.diff" "$dst/patch.diff"
 for f in "$sd"/*; do case "$(basename $f)" in patch.diff|patch.rebased.diff) ;; *_test.go) cp "$f" "$dst/$(basename $f).txt";; *) cp -r "$f" "$dst/";; esac; done
